@@ -187,18 +187,19 @@ theorem BrGood.set {depth : Nat} {br : Array Int} (h : BrGood depth br) {v : Int
   · exact Or.inr hv
   · exact h j
 
-theorem stemFill_good {depth : Nat} (usMain : Array Nat) (n : Nat) (stop : Array Int → Nat → Bool)
+theorem stemFill_good {depth : Nat} (usMain : Array Nat) (n : Nat) (h : Nat → Int → Bool)
     {v : Int} (hv : Good depth v) :
-    ∀ (f idx : Nat) (br : Array Int), BrGood depth br → BrGood depth (stemFill usMain n stop v f idx br) := by
+    ∀ (f idx : Nat) (br r : Array Int), stemFill usMain n h v f idx br = some r →
+      BrGood depth br → BrGood depth r := by
   intro f
   induction f with
-  | zero => intro idx br h; exact h
+  | zero => intro idx br r hr; simp [stemFill] at hr
   | succ f ih =>
-    intro idx br h
-    simp only [stemFill]
-    split
-    · exact h
-    · exact ih _ _ (h.set hv _)
+    intro idx br r hr hb
+    simp only [stemFill] at hr
+    split at hr
+    · simp only [Option.some.injEq] at hr; subst hr; exact hb
+    · exact ih _ _ _ hr (hb.set hv _)
 
 theorem LabsGood.snoc {depth : Nat} {labs : List (Int × Nat)} (h : LabsGood depth labs) {c : Int} {d : Nat}
     (h1 : 1 ≤ d) (h2 : d ≤ depth) (h3 : GoodLow depth (depth - d) c) : LabsGood depth (labs ++ [(c, d)]) := by
@@ -211,16 +212,18 @@ theorem LabsGood.snoc {depth : Nat} {labs : List (Int × Nat)} (h : LabsGood dep
 
 theorem pfInner_good (ds usMain : Array Nat) (so : Array Int) (depth : Nat) (pfaf0 : Int) (d0 : Nat)
     (hd1 : 1 ≤ d0) (hd2 : d0 ≤ depth) (hp0 : GoodLow depth (depth - d0) pfaf0) :
-    ∀ (l : List Nat) (i : Nat) (st : PfSt × Int), i + l.length ≤ 4 →
+    ∀ (l : List Nat) (i : Nat) (st r : PfSt × Int × Bool), i + l.length ≤ 4 →
+      pfInner ds usMain so depth pfaf0 d0 l i st = some r →
       BrGood depth st.1.1 → LabsGood depth st.1.2.2 →
-      BrGood depth (pfInner ds usMain so depth pfaf0 d0 l i st).1.1 ∧
-      LabsGood depth (pfInner ds usMain so depth pfaf0 d0 l i st).1.2.2 := by
+      BrGood depth r.1.1 ∧ LabsGood depth r.1.2.2 := by
   intro l
   induction l with
-  | nil => intro i st _ hb hl; exact ⟨hb, hl⟩
+  | nil =>
+    intro i st r _ hr hb hl
+    simp only [pfInner, Option.some.injEq] at hr; subst hr; exact ⟨hb, hl⟩
   | cons idx rest ih =>
-    intro i st hlen hb hl
-    obtain ⟨⟨br, idxs, labs⟩, intDs⟩ := st
+    intro i st r hlen hr hb hl
+    obtain ⟨⟨br, idxs, labs⟩, intDs, ok⟩ := st
     simp only [List.length_cons] at hlen
     have he : depth - d0 < depth := by omega
     have hsub := hp0.add he (2 * (i : Int) + 1) (by omega) (by omega)
@@ -233,16 +236,18 @@ theorem pfInner_good (ds usMain : Array Nat) (so : Array Int) (depth : Nat) (pfa
       · rename_i hlt
         exact hl'.snoc (by omega) (by omega) (hc _ (by omega))
       · exact hl'
-    simp only [pfInner]
-    split
-    · apply ih _ _ (by omega)
-      · exact stemFill_good _ _ _ hsub.1 _ _ _ (BrGood.set hb hsub.1 _)
-      · exact hlabs _ hsub.2 _ hl
-    · apply ih _ _ (by omega)
-      · apply stemFill_good _ _ _ hint.1
-        apply BrGood.set _ hint.1
-        exact stemFill_good _ _ _ hsub.1 _ _ _ (BrGood.set hb hsub.1 _)
-      · exact hlabs _ hint.2 _ (hlabs _ hsub.2 _ hl)
+    simp only [pfInner] at hr
+    split at hr
+    · cases hr
+    · rename_i br1 h1
+      have hb1 : BrGood depth br1 := stemFill_good _ _ _ hsub.1 _ _ _ _ h1 (BrGood.set hb hsub.1 _)
+      split at hr
+      · exact ih _ _ _ (by omega) hr hb1 (hlabs _ hsub.2 _ hl)
+      · split at hr
+        · cases hr
+        · rename_i br2 h2
+          have hb2 : BrGood depth br2 := stemFill_good _ _ _ hint.1 _ _ _ _ h2 (BrGood.set hb1 hint.1 _)
+          exact ih _ _ _ (by omega) hr hb2 (hlabs _ hint.2 _ (hlabs _ hsub.2 _ hl))
 
 theorem insertDesc_length (key : Nat → Int) (x : Nat) (l : List Nat) :
     (insertDesc key x l).length = l.length + 1 := by
@@ -265,19 +270,19 @@ theorem sortDesc_length (key : Nat → Int) (l : List Nat) : (sortDesc key l).le
     omega
 
 theorem pfLoop_good (ds usMain : Array Nat) (so uparea : Array Int) (trib : List Nat) (depth : Nat) :
-    ∀ (f : Nat) (st r : PfSt × Bool), BrGood depth st.1.1 → LabsGood depth st.1.2.2 →
+    ∀ (f : Nat) (st r : PfSt × Bool × Bool), BrGood depth st.1.1 → LabsGood depth st.1.2.2 →
       pfLoop ds usMain so uparea trib depth f st = some r → BrGood depth r.1.1 := by
   intro f
   induction f with
   | zero =>
     intro st r hb _ h
-    obtain ⟨⟨br, idxs, labs⟩, tie⟩ := st
+    obtain ⟨⟨br, idxs, labs⟩, tie, ok⟩ := st
     cases labs with
     | nil => simp only [pfLoop, Option.some.injEq] at h; subst h; exact hb
     | cons a labs => simp [pfLoop] at h
   | succ f ih =>
     intro st r hb hl h
-    obtain ⟨⟨br, idxs, labs⟩, tie⟩ := st
+    obtain ⟨⟨br, idxs, labs⟩, tie, ok⟩ := st
     cases labs with
     | nil => simp only [pfLoop, Option.some.injEq] at h; subst h; exact hb
     | cons a labs =>
@@ -286,48 +291,58 @@ theorem pfLoop_good (ds usMain : Array Nat) (so uparea : Array Int) (trib : List
       have hl' : LabsGood depth labs := fun p hp => hl p (by simp [hp])
       simp only [pfLoop] at h
       split at h
-      · exact ih ((br, idxs, labs), tie) r hb hl' h
-      · have hlen : 0 + (sortDesc (fun i => uparea[ds[i]!]!)
-            (List.take 4 (sortDesc (fun i => uparea[i]!)
-              (List.filter (fun idx => br[idx]! == 0 && br[ds[idx]!]! == pfaf0) trib)))).length ≤ 4 := by
-          rw [sortDesc_length, List.length_take]
-          omega
-        have := pfInner_good ds usMain so depth pfaf0 d0 ha.1 ha.2.1 ha.2.2 _ 0
-          ((br, idxs, labs), pfaf0) hlen hb hl'
-        exact ih _ _ this.1 this.2 h
+      · exact ih ((br, idxs, labs), tie, ok) r hb hl' h
+      · split at h
+        · cases h
+        · rename_i st' x ok' hin
+          have hlen : 0 + (sortDesc (fun i => uparea[ds[i]!]!)
+              (List.take 4 (sortDesc (fun i => uparea[i]!)
+                (List.filter (fun idx => br[idx]! == 0 && br[ds[idx]!]! == pfaf0) trib)))).length ≤ 4 := by
+            rw [sortDesc_length, List.length_take]
+            omega
+          have := pfInner_good ds usMain so depth pfaf0 d0 ha.1 ha.2.1 ha.2.2 _ 0
+            ((br, idxs, labs), pfaf0, ok) _ hlen hin hb hl'
+          exact ih _ _ this.1 this.2 h
 
 theorem pfPits_good (usMain : Array Nat) (n : Nat) (so : Array Int) (depth : Nat) (hd : 1 ≤ depth) :
-    ∀ (l : List Nat) (i : Nat) (st : PfSt), BrGood depth st.1 → LabsGood depth st.2.2 →
-      BrGood depth (pfPits usMain n so depth l i st).1 ∧
-      LabsGood depth (pfPits usMain n so depth l i st).2.2 := by
+    ∀ (l : List Nat) (i : Nat) (st r : PfSt), pfPits usMain n so depth l i st = some r →
+      BrGood depth st.1 → LabsGood depth st.2.2 →
+      BrGood depth r.1 ∧ LabsGood depth r.2.2 := by
   intro l
   induction l with
-  | nil => intro i st hb hl; exact ⟨hb, hl⟩
+  | nil =>
+    intro i st r hr hb hl
+    simp only [pfPits, Option.some.injEq] at hr; subst hr; exact ⟨hb, hl⟩
   | cons idx rest ih =>
-    intro i st hb hl
+    intro i st r hr hb hl
     obtain ⟨br, idxs, labs⟩ := st
-    simp only [pfPits]
+    simp only [pfPits] at hr
     have hg := pfaf1_goodLow depth hd ((i : Int) + 1) (depth - 1)
-    apply ih
-    · exact stemFill_good _ _ _ hg.good _ _ _ (BrGood.set hb hg.good _)
-    · exact hl.snoc (Nat.le_refl 1) hd hg
+    split at hr
+    · cases hr
+    · rename_i br1 h1
+      exact ih _ _ _ hr (stemFill_good _ _ _ hg.good _ _ _ _ h1 (BrGood.set hb hg.good _))
+        (hl.snoc (Nat.le_refl 1) hd hg)
 
 /-- **digit invariant**: every entry of `pfaf_branch` after the two loops is 0 or good -/
 theorem pfBranch_good (pits : List Nat) (ds : Array Nat) (seq : List Nat) (usMain : Array Nat)
     (uparea : Array Int) (mask : Option (Array Bool)) (depth : Nat) (hd : 1 ≤ depth)
-    (br : Array Int) (idxs : List Nat) (tie : Bool)
-    (h : pfBranch pits ds seq usMain uparea mask depth = some (br, idxs, tie)) : BrGood depth br := by
+    (br : Array Int) (idxs : List Nat) (tie ok : Bool)
+    (h : pfBranch pits ds seq usMain uparea mask depth = some (br, idxs, tie, ok)) : BrGood depth br := by
   unfold pfBranch at h
   simp only at h
   split at h
   · cases h
-  · rename_i br' idxs' labs' tie' heq
-    simp only [Option.some.injEq, Prod.mk.injEq] at h
-    obtain ⟨h1, _, _⟩ := h
-    subst h1
-    have h0 : BrGood depth (Array.replicate ds.size (0 : Int)) := fun j => Or.inl (replicate_get! _ 0 rfl j)
-    have hp := pfPits_good usMain ds.size (pfStrord ds seq usMain mask depth) depth hd pits 0
-      (Array.replicate ds.size 0, [], []) h0 (fun p hp => by cases hp)
-    exact pfLoop_good _ _ _ _ _ _ _ _ _ hp.1 hp.2 heq
+  · rename_i st0 hp
+    split at h
+    · cases h
+    · rename_i br' idxs' labs' tie' ok' heq
+      simp only [Option.some.injEq, Prod.mk.injEq] at h
+      obtain ⟨h1, _, _⟩ := h
+      subst h1
+      have h0 : BrGood depth (Array.replicate ds.size (0 : Int)) := fun j => Or.inl (replicate_get! _ 0 rfl j)
+      have hpg := pfPits_good usMain ds.size (pfStrord ds seq usMain mask depth) depth hd pits 0
+        (Array.replicate ds.size 0, [], []) st0 hp h0 (fun p hp => by cases hp)
+      exact pfLoop_good _ _ _ _ _ _ _ _ _ hpg.1 hpg.2 heq
 
 end Pf
